@@ -100,4 +100,18 @@ def reportedBefore (recnoBeforeRead : Nat) : Nat := recnoBeforeRead + 1
 
 theorem bad_second_record_reported_as_third : reportedBefore 2 = 3 := rfl
 
+/-! ### C07: a `decimal` typed element under `except ValueError` only -/
+
+/-- the pre-fix handler of the typed conversion caught ValueError only -/
+def convertBefore (env : Iso.Env) (f : Iso.FieldCfg) (t : Text) : Outcome Iso.Val :=
+  (Iso.stringToPyType env f t).catchAs Iso.isValueError
+
+/-- "12ab.5" in a decimal field: `decimal.InvalidOperation` (an ArithmeticError) escaped `loads` -/
+theorem decimal_field_escaped (env : Iso.Env) (f : Iso.FieldCfg) (h : f.pytype = .decimal)
+    (hk : env.classes = asciiClasses) :
+    convertBefore env f [49, 50, 97, 98, 46, 53] = .escape .decimalError ∧
+    (Iso.stringToPyType env f [49, 50, 97, 98, 46, 53]).catchAs Iso.isConvError = .dataError := by
+  have hd : pyDecimal asciiClasses [49, 50, 97, 98, 46, 53] = none := by decide
+  simp [convertBefore, Iso.stringToPyType, h, hk, hd, Outcome.catchAs, Iso.isValueError, Iso.isConvError]
+
 end Cardutil.Legacy
